@@ -435,6 +435,11 @@ func ruleC16Accounting(c *Ctx) {
 	producers := map[string]string{}
 	checks := map[string]bool{"math.IsNaN": true, "math.IsInf": true, "fmt.Errorf": true} // value tests, not producers
 	tbd := NewTB()
+	// the argument list: the variadic parameter of Sanitize, whatever it is called
+	variadic := ""
+	if f.Signature.Variadic() && len(f.Params) > 0 {
+		variadic = f.Params[len(f.Params)-1].Name()
+	}
 	deepInstrs(f, func(_ *ssa.Function, tb *TB, _ *ssa.BasicBlock, in ssa.Instruction) {
 		call, ok := in.(*ssa.Call)
 		if !ok || call.Common().StaticCallee() == nil {
@@ -442,7 +447,7 @@ func ruleC16Accounting(c *Ctx) {
 		}
 		for _, a := range call.Common().Args {
 			t := tb.Of(a)
-			if t.Op == "ext" && t.Name == "0" && t.Args[0].Op == "assertok" && strings.Contains(t.String(), "args[") {
+			if t.Op == "ext" && t.Name == "0" && t.Args[0].Op == "assertok" && variadic != "" && strings.Contains(t.String(), "p:"+variadic+"[") {
 				if checks[funcName(call.Common().StaticCallee())] {
 					continue
 				}
